@@ -253,9 +253,10 @@ theorem ms_packet_structure (bs : Bytes) (hb : BytesOk bs) (n fs k : Nat) (hn : 
     (msPacketValidate bs n fs = .ok k ↔
       ∃ ps : List Packet, ps.length = n ∧ (∀ p ∈ ps, Valid p) ∧ bs = msSerialize ps ∧
         ∀ p ∈ ps, duration fs p = k) ∧
+    (msPacketValidate bs n fs = .ok k → 2 * n - 1 ≤ bs.length) ∧
     msPacketValidate bs n fs ≠ .oob ∧ msPacketValidate bs n fs ≠ .abort := by
   have hnf := validateLoop_nofault fs n true 0 bs
-  refine ⟨⟨fun h => ?_, ?_⟩, ?_, ?_⟩
+  refine ⟨⟨fun h => ?_, ?_⟩, fun h => ?_, ?_, ?_⟩
   · rcases validateLoop_sound fs n true 0 bs k hb h with ⟨h0, _⟩ | ⟨_, ps, hlen, hval, hser, hdur, _⟩
     · omega
     · refine ⟨ps, hlen, hval, hser, fun p hp => ?_⟩
@@ -267,6 +268,11 @@ theorem ms_packet_structure (bs : Bytes) (hb : BytesOk bs) (n fs k : Nat) (hn : 
     have := validateLoop_complete fs hfs ps true 0 k hne hval hdur (fun h => by cases h)
     rw [hlen, ← hser] at this
     exact this
+  · rcases validateLoop_sound fs n true 0 bs k hb h with ⟨h0, _⟩ | ⟨_, ps, hlen, hval, hser, _, _⟩
+    · omega
+    · have hne : ps ≠ [] := by intro h; rw [h] at hlen; simp at hlen; omega
+      have := msSerialize_length_ge ps hne hval
+      rw [hser, ← hlen]; exact this
   · intro h; unfold msPacketValidate at h; rw [h] at hnf; cases hnf
   · intro h; unfold msPacketValidate at h; rw [h] at hnf; cases hnf
 
